@@ -106,6 +106,13 @@ pub fn verify_stark_proof_with_challenges_circuit<
 
     // degree_bits should be nonzero.
     let _ = builder.inverse(proof.degree_bits);
+    // Without support for several degrees the circuit is built for exactly `degree_bits`: the
+    // degree claimed by the proof must be that one (in the multiple-degree mode it is tied to the
+    // Merkle path lengths by the FRI verifier instead).
+    if min_degree_bits_to_support.is_none() {
+        let expected_degree_bits = builder.constant(F::from_canonical_usize(degree_bits));
+        builder.connect(proof.degree_bits, expected_degree_bits);
+    }
 
     let quotient_polys = &proof.openings.quotient_polys;
     let ctl_zs_first = &proof.openings.ctl_zs_first;
